@@ -109,7 +109,7 @@ func runF1(p *an.Prog, r *an.Result) {
 			continue
 		}
 		divs := 0
-		for _, fn := range unitOf(f.Fn) {
+		for _, fn := range unitWithHelpers(p, f.Fn) {
 			an.EachInstr(fn, func(in ssa.Instruction) {
 				var divisor ssa.Value
 				switch x := in.(type) {
